@@ -70,5 +70,12 @@ def sched_spec(r):
     """one pre-emption inside the first thread's own steps (so that it is certainly interrupted while the
     others have not started) plus 0-3 more placed uniformly over the whole run"""
     d = r.choice([0, 1, 1, 2, 3])
-    return ([["localfrac", 0, r.random()]] + [["frac", r.random()] for _ in range(d)],
-            [r.randrange(1000) for _ in range(16)])
+    x = r.random()
+    k = r.random()
+    if k < 0.35:
+        first = ["local", 0, 1 + int(x * 60)]          # right at the start (first use of fresh state)
+    elif k < 0.5:
+        first = ["localfrac", 0, 1.0 - x ** 3 * 0.2]   # near the end
+    else:
+        first = ["localfrac", 0, x]
+    return ([first] + [["frac", r.random()] for _ in range(d)], [r.randrange(1000) for _ in range(16)])
